@@ -116,6 +116,7 @@ func rewriteImpl(s string) string {
 }
 
 func (e *Env) parse(src string) (ast.Expr, error) {
+	src = e.u.p.cs.expandMacros(src)
 	src = strings.ReplaceAll(src, "$", "ghost_")
 	src = rewriteImpl(src)
 	x, err := parser.ParseExpr(src)
